@@ -314,3 +314,27 @@ Proof.
   destruct inc eqn:Einc; [exact Hm|].
   rewrite job_doc_irrelevant by exact Einc. exact Hm.
 Qed.
+
+(* top level, with purely syntactic side conditions on data and filter besides NoSlotMerge *)
+Theorem find_job_ids_exact_syntactic : forall rs ic fuel jobs f pf R,
+  is_empty_filter f = false ->
+  add_prefix fuel f = Ok pf ->
+  let inc := str_mem s_doc (root_keys fuel pf) in
+  let c := map (job_doc inc) jobs in
+  NoDup (map fst c) -> NoSlotMerge c ->
+  Forall (fun jd => wf (snd jd) = true) c -> Forall (fun jd => deep_ok (snd jd) = true) c ->
+  AllLeaves PlainLeaf fuel pf ->
+  find_job_ids rs ic fuel jobs f = Ok R ->
+  forall j, In j jobs -> job_matches rs ic true fuel f j = Ok (mem (j_id j) R).
+Proof.
+  intros rs ic fuel jobs f pf R Hne Hpf inc c Hnd Hs Hwf Hdeep HA H j Hj.
+  unfold find_job_ids in H. unfold job_matches. rewrite Hne, Hpf in *. simpl in H. simpl.
+  fold inc in H. fold c in H.
+  assert (Hin : In (j_id j, snd (job_doc inc j)) c).
+  { unfold c. change (j_id j, snd (job_doc inc j)) with (job_doc inc j). apply in_map. exact Hj. }
+  pose proof (find_exact rs ic c fuel pf R Hnd Hs Hwf Hdeep HA H _ _ Hin) as Hm.
+  change (JObj ((s_sp, j_sp j) :: match j_doc j with Some d => [(s_doc, d)] | None => [] end))
+    with (snd (job_doc true j)).
+  destruct inc eqn:Einc; [exact Hm|].
+  rewrite job_doc_irrelevant by exact Einc. exact Hm.
+Qed.
